@@ -14,6 +14,7 @@ def run(ck):
     tids = gen.Tids()
     progs = localops.random_string_programs(ck.seed, 150 if q else 3000, tids)
     progs += localops.model_programs(ck.seed, 40 if q else 600, tids)
+    progs += localops.builder_programs(ck.seed, 6 if q else 60, tids)
     ck.cov["rule"] = ("random term lists (strings up to length 6 over up to 4 modes, integer coefficients) and bases (any subset and "
                       "ordering of occupation states, any operator order inside a state, 1-3 sites): every element against the "
                       "Jordan-Wigner vacuum expectation; symmetric operators in the spinless/spinful bases for the four symmetries "
